@@ -55,7 +55,38 @@ def owner_of(P, f):
     return f
 
 
+def event_name_is_a_c_string(ctx):
+    """The tag of a drop-in is its file name, and both sources have to spell it the same way: the directory scan (Fs::readDir names) and
+    the inotify events.  inotify_event::name is NUL-terminated and then PADDED with further NULs up to `len`; a std::string built with
+    `len` as its length carries the padding, no longer equals the scan's name for the same file, and Engine::removeDropInConfig (which
+    matches tags) can never remove or replace what the scan loaded."""
+    P = ctx.prog
+    n = 0
+    for f in sorted(P.fns.values(), key=lambda x: x.usr):
+        if f.file != "oomd/dropin/FsDropInService.cpp":
+            continue
+        for i, nd in enumerate(f.nodes):
+            if nd["k"] not in ("construct", "call"):
+                continue
+            a = [x for x in nd.get("args", []) if "allocator" not in f.text(x)]
+            if not a or not re.search(r"(->|\.)name$", f.text(a[0])) or "event" not in f.text(a[0]).lower() and "inotify" not in (f.nodes[f.strip(a[0])].get("type") or ""):
+                continue
+            n += 1
+            ctx.use(f)
+            lens = [f.text(x) for x in a[1:] if re.search(r"(->|\.)len\b", f.text(x))]
+            ctx.check(not lens, "event-name-is-a-c-string:%s@%d" % (short(f), nd.get("line", 0)), "value-shape", f.loc(i),
+                      "the event's file name is taken as the NUL-terminated string it is",
+                      "%s builds the name from %s with length %s: inotify pads name[] with NULs up to len, so the tag differs from the one the directory "
+                      "scan gives the same file and a start-up drop-in can never be removed or replaced by a later event" % (short(f), f.text(a[0]), lens[0] if lens else ""))
+    # the plain hand-over `processDropInAdd(event->name)` (implicit conversion from const char*) is the reference form
+    pw = ctx.fn1("Oomd::FsDropInService::processDropInWatcher")
+    direct = [i for i in pw.calls("processDropInAdd", "processDropInRemove") if pw.nodes[i].get("args") and re.search(r"(->|\.)name\b", pw.text(pw.nodes[i]["args"][0]))]
+    ctx.counters["event_name_uses"] = n + len(direct)
+    ctx.floor("event_name_uses", 1, "uses of inotify_event::name as a drop-in tag")
+
+
 def run(ctx):
+    event_name_is_a_c_string(ctx)
     from .C13 import tagged_dropins_all_erased
     tagged_dropins_all_erased(ctx)
     # locals / parameters the rules below refer to by name (a rename makes the analysis 'broken', never a violation)
